@@ -79,11 +79,12 @@ static int geodesicBookkeeping(const Geodesic& gd, const ContactGeometry& geo, d
     return bad;
 }
 
+static std::unique_ptr<ContactGeometry> makeShape(int shape, const std::vector<double>& v, double& scale, const std::string& cls);
 static void caseAnalytic(bool sphere, const std::string& cls, const std::vector<double>& v) {
     double r = v[0]; Vec3 p0 = V(v, 1), ta = V(v, 4); double L = v[7]; int N = (int)v[8];
     const char* fn = sphere ? "geo.sph" : "geo.cyl";
     emitI(fn, cls, v);
-    std::unique_ptr<ContactGeometry> geo; if (sphere) geo.reset(new ContactGeometry::Sphere(r)); else geo.reset(new ContactGeometry::Cylinder(r));
+    double scl; std::unique_ptr<ContactGeometry> geo = makeShape(sphere ? 0 : 1, {r, 0, 0}, scl, cls);
     std::vector<Knot> ks;
     geo->shootGeodesicInDirectionAnalytically(p0, ta, L, N, [&](const Knot& k) { ks.push_back(k); });
     for (auto& k : ks) emitKnot(fn, k);
@@ -143,12 +144,20 @@ static void casePQ(bool sphere, const std::string& cls, const std::vector<double
 }
 
 // ================================================================================================ implicit shooting
-static std::unique_ptr<ContactGeometry> makeShape(int shape, const std::vector<double>& v, double& scale) {
+// class names starting with "after_setter": the object is constructed with OTHER parameters, queried once, and brought to the
+// record's parameters through its setter (stale-cache defects in setters; the seeded C47-2 bug went unseen without this)
+static bool mutatedCls(const std::string& cls) { return cls.rfind("after_setter", 0) == 0; }
+static std::unique_ptr<ContactGeometry> makeShape(int shape, const std::vector<double>& v, double& scale, const std::string& cls) {
+    const bool mut = mutatedCls(cls); const double fa = 1.37 * v[0] + 0.21, fb = 0.61 * v[1] + 0.33, fc = 1.83 * v[2] + 0.12;
+    auto warm = [](const ContactGeometry& g) { Vec3 q(0.31, -0.27, 0.43); g.calcSurfaceValue(q); g.calcSurfaceGradient(q); g.calcSurfaceHessian(q); bool in; UnitVec3 n; g.findNearestPoint(q, in, n); };
+    std::unique_ptr<ContactGeometry> g;
+    static const char* nm[] = {"Sphere", "Cylinder", "Ellipsoid", "Torus"};
+    if (mut) vh::D(std::string("after_setter.") + nm[shape > 3 ? 3 : shape]);
     switch (shape) {
-    case 0: scale = v[0]; return std::unique_ptr<ContactGeometry>(new ContactGeometry::Sphere(v[0]));
-    case 1: scale = v[0]; return std::unique_ptr<ContactGeometry>(new ContactGeometry::Cylinder(v[0]));
-    case 2: scale = std::max(v[0], std::max(v[1], v[2])); return std::unique_ptr<ContactGeometry>(new ContactGeometry::Ellipsoid(Vec3(v[0], v[1], v[2])));
-    default: scale = v[0] + v[1]; return std::unique_ptr<ContactGeometry>(new ContactGeometry::Torus(v[0], v[1]));
+    case 0: { scale = v[0]; auto* o = new ContactGeometry::Sphere(mut ? fa : v[0]); g.reset(o); if (mut) { warm(*o); o->setRadius(v[0]); } return g; }
+    case 1: { scale = v[0]; auto* o = new ContactGeometry::Cylinder(mut ? fa : v[0]); g.reset(o); if (mut) { warm(*o); o->setRadius(v[0]); } return g; }
+    case 2: { scale = std::max(v[0], std::max(v[1], v[2])); auto* o = new ContactGeometry::Ellipsoid(mut ? Vec3(fa, fb, fc) : Vec3(v[0], v[1], v[2])); g.reset(o); if (mut) { warm(*o); o->setRadii(Vec3(v[0], v[1], v[2])); } return g; }
+    default: { scale = v[0] + v[1]; auto* o = new ContactGeometry::Torus(mut ? fa : v[0], mut ? std::min(fb, 0.8 * fa) : v[1]); g.reset(o); if (mut) { warm(*o); o->setTorusRadius(v[0]); o->setTubeRadius(v[1]); } return g; }
     }
 }
 static void caseImplicit(const std::string& cls, const std::vector<double>& v) {
@@ -156,12 +165,22 @@ static void caseImplicit(const std::string& cls, const std::vector<double>& v) {
     emitI("p.geo.implicit", cls, v); std::puts("O p.geo.implicit -");
     static const char* nm[] = {"Sphere", "Cylinder", "Ellipsoid", "Torus"};
     vh::D(std::string("p.geo.implicit.") + cls + "." + nm[shape]);
-    double scale; std::unique_ptr<ContactGeometry> geo = makeShape(shape, par, scale);
+    double scale; std::unique_ptr<ContactGeometry> shot = makeShape(shape, par, scale, cls), geo = makeShape(shape, par, scale, "");   // geo = fresh reference object
     const std::string K = std::string(nm[shape]) + ".shootGeodesicInDirectionImplicitly." + cls;
     std::vector<Knot> ks; bool threw = false;
-    try { geo->shootGeodesicInDirectionImplicitly(p0, ta, L, 1e-3 * scale, 1e-10, 1e-10, 10000, [&](const Knot& k) { ks.push_back(k); }); }
+    try { shot->shootGeodesicInDirectionImplicitly(p0, ta, L, 1e-3 * scale, 1e-10, 1e-10, 10000, [&](const Knot& k) { ks.push_back(k); }); }
     catch (const std::exception&) { threw = true; }
     vh::P("no_exception", K + ".exception", threw ? 1 : 0, 0);
+    if (mutatedCls(cls)) {     // the object brought to these parameters by its setter must behave like a fresh one
+        std::vector<Knot> kf; bool threwF = false;
+        try { geo->shootGeodesicInDirectionImplicitly(p0, ta, L, 1e-3 * scale, 1e-10, 1e-10, 10000, [&](const Knot& k) { kf.push_back(k); }); } catch (const std::exception&) { threwF = true; }
+        double worst = (threw != threwF || ks.size() != kf.size()) ? 1 : 0;
+        for (size_t i = 0; i < ks.size() && i < kf.size(); ++i) worst = std::max(worst, std::max((ks[i].point - kf[i].point).norm() / scale, (Vec3(ks[i].tangent) - Vec3(kf[i].tangent)).norm()));
+        vh::P("equals_fresh", std::string(nm[shape]) + ".after_setter.shootGeodesicInDirectionImplicitly.equals_fresh", worst, 1e-13);
+        Vec3 q(0.37, -0.21, 0.55); Mat33 Hm = shot->calcSurfaceHessian(q), Hf = geo->calcSurfaceHessian(q); double hd = 0; for (int i = 0; i < 3; ++i) for (int j = 0; j < 3; ++j) hd = std::max(hd, std::abs(Hm(i, j) - Hf(i, j)));
+        vh::P("equals_fresh", std::string(nm[shape]) + ".after_setter.value_gradient_hessian.equals_fresh",
+              std::max(std::abs(shot->calcSurfaceValue(q) - geo->calcSurfaceValue(q)), std::max((shot->calcSurfaceGradient(q) - geo->calcSurfaceGradient(q)).norm(), hd)), 1e-13);
+    }
     if (threw) return;
     knotPredicates(K, *geo, ks, L, scale, 1e-9);
     if (ks.size() < 2) return;
@@ -189,7 +208,7 @@ static void caseLegacyBatch(const std::string& cls, const std::vector<double>& v
     for (int k = 0; k < nshots; ++k) {
         int shape = g.below(4); double r = g.range(0.5, 2); std::vector<double> par;
         if (shape <= 1) par = {r, 0, 0}; else if (shape == 2) par = {g.range(0.5, 2), g.range(0.5, 2), g.range(0.5, 2)}; else { double R = g.range(1, 2); par = {R, g.range(0.25, 0.7) * R, 0}; }
-        double scale; std::unique_ptr<ContactGeometry> geo = makeShape(shape, par, scale);
+        double scale; std::unique_ptr<ContactGeometry> geo = makeShape(shape, par, scale, "");
         Vec3 ps = surfacePoint(g, shape, par); Vec3 nrm = Vec3(geo->calcSurfaceUnitNormal(ps)); Vec3 t; do { t = rndUnit(g); } while ((t % nrm).norm() < 0.3);
         t = Vec3(UnitVec3(t - (~t * nrm) * nrm)); double L = g.range(0.5, 2.5) * scale;
         Geodesic gd; GeodesicOptions opts;
@@ -261,7 +280,7 @@ static void generic(vh::Rng& g, long n) {
             int shape = g.below(4); std::vector<double> par;
             if (shape <= 1) par = {r, 0, 0}; else if (shape == 2) par = {g.range(0.5, 2), g.range(0.5, 2), g.range(0.5, 2)}; else { double R = g.range(1, 2); par = {R, g.range(0.25, 0.7) * R, 0}; }
             Vec3 ps = surfacePoint(g, shape, par);
-            double scale; std::unique_ptr<ContactGeometry> geo = makeShape(shape, par, scale);
+            double scale; std::unique_ptr<ContactGeometry> geo = makeShape(shape, par, scale, "");
             Vec3 nrm = Vec3(geo->calcSurfaceUnitNormal(ps)); Vec3 t; do { t = rndUnit(g); } while ((t % nrm).norm() < 0.3);
             Vec3 p0 = ps + g.range(-0.05, 0.05) * scale * nrm;
             std::vector<double> v = {(double)shape, par[0], par[1], par[2]}; push3(v, p0); push3(v, t); v.push_back(g.range(0.2, 2.0) * scale);
@@ -294,6 +313,15 @@ static void degenerate(vh::Rng& g, long n) {
         caseImplicit("meridian", {2, 2, 1.5, 1, 2, 0, 0, 0, 0, 1, 3.0});
         caseImplicit("outer_equator", {3, 2, 0.6, 0, 2.6, 0, 0, 0, 1, 0, 4.0});
         caseImplicit("inner_equator", {3, 2, 0.6, 0, 1.4, 0, 0, 0, 1, 0, 2.0});
+        // mutated objects (constructed with other parameters, then resized through the setter): implicit and analytic shooting
+        { Vec3 u = rndUnit(g), t; do { t = rndUnit(g); } while ((t % u).norm() < 0.3);
+          caseAnalytic(true, "after_setter", {r, r * u[0], r * u[1], r * u[2], t[0], t[1], t[2], 1.9 * r, 7});
+          caseAnalytic(false, "after_setter", {r, r, 0, 0.2, 0.1, 1, 0.7, 2.2 * r, 6});
+          caseImplicit("after_setter", {0, r, 0, 0, r * u[0], r * u[1], r * u[2], t[0], t[1], t[2], 1.5 * r});
+          caseImplicit("after_setter", {1, r, 0, 0, r, 0, 0.3, 0.1, 1, 0.6, 1.8 * r});
+          double ea = g.range(1.5, 2.5), eb = g.range(1.0, 1.4), ec = g.range(0.5, 0.9);
+          caseImplicit("after_setter", {2, ea, eb, ec, ea * u[0], eb * u[1], ec * u[2], t[0], t[1], t[2], 2.0 * ea});
+          caseImplicit("after_setter", {3, 2, 0.6, 0, 2.6, 0, 0, 0, 1, 0.5, 3.0}); }
         if (it == 0) caseLegacyBatch("legacy_batch", {4711, 60});
         // many knots, once per run (review E, C47 M1): the frame is the product of up to 999 incremental rotations and is never
         // re-orthogonalised; the knot predicates (on surface, unit tangent, tangent orthogonal to the normal) apply to every knot
